@@ -24,6 +24,40 @@ def _load(t):
 
 import re as _re
 
+_SAMEWIT = _re.compile(r"^\s*same-witnesses\s*:\s*(.+)$", _re.S)
+
+
+def same_witnesses(g, text=""):
+    """The tactic behind the hint form `same-witnesses: implies(A, B)`.
+
+    A and B are walked in parallel through `and` / `or` / `exists` (positions where an existential occurs positively).
+    Where both have an existential block with the same variable sorts, both blocks are replaced by the SAME fresh
+    constants: in A this is Skolemisation (A => exists cs. A'), in B it is instantiation (B' => B).  The result
+    A' => B' -- its fresh constants are free, i.e. universally quantified in the obligation -- therefore implies A => B,
+    and no solver has to guess the witnesses.  Where the shapes differ the sub-formulas are left untouched (the
+    obligation is then just as hard as before, never unsound)."""
+    if not (z3.is_app(g) and g.decl().kind() == z3.Z3_OP_IMPLIES and g.num_args() == 2):
+        raise ContractMisfit(f"hint '{text[:80]}': `same-witnesses:` needs a clause of the form implies(A, B)")
+    hits = [0]
+
+    def pair(a, b):
+        if z3.is_quantifier(a) and z3.is_quantifier(b) and a.is_exists() and b.is_exists() and a.num_vars() == b.num_vars() \
+                and all(a.var_sort(k) == b.var_sort(k) for k in range(a.num_vars())):
+            cs = [z3.Const(fresh_name("wit_" + a.var_name(k).split("!")[0]), a.var_sort(k)) for k in range(a.num_vars())]
+            hits[0] += 1
+            return pair(z3.substitute_vars(a.body(), *reversed(cs)), z3.substitute_vars(b.body(), *reversed(cs)))
+        if z3.is_app(a) and z3.is_app(b) and a.decl().kind() == b.decl().kind() and a.decl().kind() in (z3.Z3_OP_AND, z3.Z3_OP_OR) and a.num_args() == b.num_args():
+            ps = [pair(x, y) for x, y in zip(a.children(), b.children())]
+            mk = z3.And if a.decl().kind() == z3.Z3_OP_AND else z3.Or
+            return mk(*[p[0] for p in ps]), mk(*[p[1] for p in ps])
+        return a, b
+
+    a2, b2 = pair(g.arg(0), g.arg(1))
+    if not hits[0]:
+        raise ContractMisfit(f"hint '{text[:80]}': `same-witnesses:` found no pair of existentials at matching positions of A and B")
+    return z3.Implies(a2, b2)
+
+
 _REBIND = _re.compile(r"^\s*([A-Za-z_][\w.]*)\s*:=\s*(.+)$", _re.S)
 
 
@@ -307,6 +341,18 @@ class StmtMixin:
             s = lift(v)
             self.safety(st, z3.Length(s) == n, "ValueError", node)
             return [Val(v.ty.elem, s[i]) for i in range(n)]
+        if isinstance(v.ty, T.Set) and n == 1 and not v.is_py and not self.qstack:
+            # `(x,) = S` for a set: ValueError unless S has exactly one element; x is that element
+            S = lift(v)
+            es = v.ty.elem.sort()
+            e = z3.Const(fresh_name("only"), es)
+            self.safety(st, z3.Exists([e], S == z3.SetAdd(z3.EmptySet(es), e)), "ValueError", node)
+            x = fresh(v.ty.elem, "only")
+            st.assume(S == z3.SetAdd(z3.EmptySet(es), x))
+            xv = Val(v.ty.elem, x)
+            if isinstance(v.ty.elem, (T.Ref, T.Opt, T.Tuple)):
+                self.assume_allocated(st, xv)
+            return [xv]
         raise Unsupported(f"unpacking {v.ty}", node)
 
     # ---- quantified generator forms --------------------------------------------------------------------------
@@ -381,6 +427,14 @@ class StmtMixin:
             self.qstack.pop()
             self.qouter.pop()
             self.qnames.pop()
+        if isinstance(body, bool) and all(c is True for c in conds) and dmeta is None and info.kind == "indexed":
+            # a constant body (`any(include(g) for g in glyphs)` with include = lambda g: True): no quantifier, just
+            # "the iterable is (not) empty" -- such a formula is often the GUARD of conditional effects of a later call
+            rng_ = getattr(info, "range", None)
+            nonempty = (rng_[0] < rng_[1]) if rng_ is not None else (info.n > 0)
+            if which == "all":
+                return bool_val(True if body else z3.Not(nonempty))
+            return bool_val(nonempty if body else False)
         if which == "all":
             return bool_val(z3.ForAll(vars_, z3bool(z_implies(z_and(guard, *conds), body))))
         return bool_val(z3.Exists(vars_, z3bool(z_and(guard, *conds, body))))
@@ -924,6 +978,14 @@ class StmtMixin:
                             keep = set(s2.mutated), set(s2.rebound)
                             self.assign_target(_store(tnode), nv, s2, node, mutate=True)
                             s2.mutated, s2.rebound = keep  # a proved equality changes nothing for the caller
+                            continue
+                        sw = _SAMEWIT.match(h)
+                        if sw:
+                            # "same-witnesses: implies(A, B)": prove the STRONGER formula in which the existentials of B are
+                            # instantiated with the witnesses of the existentials of A at the same positions, assume implies(A, B)
+                            g = z3bool(self.clause(sw.group(1), s2))
+                            self.oblige(s2, same_witnesses(g, h), "assert", f"hint@L{node.lineno}", node, info={"clause": h})
+                            s2.assume(g)
                             continue
                         g = self.clause(h, s2)
                         self.oblige(s2, g, "assert", f"hint@L{node.lineno}", node, info={"clause": h})
